@@ -35,6 +35,19 @@ def configs(tier, seed):
     return cfgs
 
 
+def must_accept(cfg):
+    """The four registers (Mode: 2 bits per pin, Input, Output: 1 bit per pin, SetClr: 2 bits per pin) are laid out by csr.Builder
+    at implicit offsets, each occupying ceil(width / data_width) words rounded up to a power of two and aligned to that size
+    (C17).  If that layout fits into 2**addr_width words the peripheral has no reason to refuse its parameters."""
+    n, dw = cfg["pins"], cfg["dw"]
+    cur = 0
+    for bits in (2 * n, n, n, 2 * n):
+        words = -(-bits // dw)
+        size = 1 << max(0, (words - 1).bit_length())
+        cur = -(-cur // size) * size + size
+    return cur <= (1 << cfg["aw"])
+
+
 def check_config(ctx, cfg):
     from amaranth_soc import gpio
     try:
@@ -102,7 +115,7 @@ def main(run: Run):
     run.assumptions.append("setclr_code assumes at most one register write strobe per cycle (guaranteed by C05's w_stb_exact at the same bus)")
     run.functions["amaranth_soc.gpio.Peripheral.elaborate"] = "per-configuration (bounded: pin count, widths, input_stages); flattened with the real bridge/registers/field actions"
     run.functions["amaranth_soc.gpio.Peripheral.Output._FieldAction.elaborate"] = "per-configuration, inside the flattened peripheral"
-    run_configs(run, __name__, cfgs, must_accept=True)
+    run_configs(run, __name__, cfgs, must_accept=must_accept)
     return run.finish(
         explanation="GPIO contract on the flattened peripheral: mode table, exact input delay (k-step from any state), set/clear "
                     "code table and direct write, mode write, reset, register packing - every clause with all other pins' signals "
